@@ -340,6 +340,10 @@ def check(case):
         apply_op(sim, nseg, h)
     if case.get("key") is not None and state_key(sim) != case["key"]:
         raise HarnessError(f"replay of prefix {hist} did not reproduce state {case['key']}")
+    try:
+        params_before = sorted(sim.model.get_parameter_values().items())
+    except Exception:  # noqa: BLE001
+        params_before = None
     kind, payload = apply_op(sim, nseg, oi)
     nontrivial = nseg >= 2 or bool(hist)
     txt = f"model={VARIANT} segments={nseg} history={[OPS[h] for h in hist]} op={OPS[oi]}"
@@ -348,6 +352,17 @@ def check(case):
         o = outcome(False, "view-raised", symptom=f"exception:{payload.split(':')[0]}:{OPS[oi].split('(')[0]}", nontrivial=nontrivial, detail=f"{payload} | {txt}")
         o.update(new, expanded=False)
         return o
+    if kind == "view" and params_before is not None:
+        # a view is a read: the model (shared with the simulator) keeps the parameter values it had
+        try:
+            params_after = sorted(sim.model.get_parameter_values().items())
+        except Exception:  # noqa: BLE001
+            params_after = None
+        if params_after != params_before:
+            o = outcome(False, "view-changed-model", symptom=f"view-changed-model-parameters:{OPS[oi].split('[')[0]}", nontrivial=nontrivial,
+                        detail=f"model parameters before the read {params_before} after {params_after} | {txt}")
+            o.update(new, expanded=False)
+            return o
     if kind == "view":
         bad = check_view(VIEWS[oi], payload, nseg)
         if bad is not None:
